@@ -41,6 +41,9 @@ def families(draw):
             # a quarter of the HPC variants are interleaved at file-operation granularity as well (result files are
             # appended, read, copied and removed by different processes)
             "file_yields": mode == "hpc" and draw(st.sampled_from([False, False, False, True])),
+            # the operator's documented commands may also run while batches are active
+            "user": draw(st.lists(st.fixed_dictionaries({"at": st.integers(10, 300), "cmd": st.sampled_from(["try", "show"])}), max_size=2))
+            if mode == "hpc" else [],
         })
     return {"core": core, "variants": variants}
 
@@ -71,8 +74,20 @@ def run_case(case):
         scn = variant_scenario(core, var)
         with H.Sim(scn, schedule=var["schedule"], file_yields=var.get("file_yields", False),
                    max_steps=30000 if var.get("file_yields") else 8000) as sim:
+            import os
+
+            for u in sorted(var.get("user", []), key=lambda x: x["at"]):
+                def pred(ww, at=u["at"], sim=sim):
+                    return ww.steps >= at and os.path.exists(os.path.join(sim.out, "submitter_groups.json"))
+
+                def fire(ww, cmd=u["cmd"], sim=sim):
+                    if not sim.is_complete():
+                        sim.user_cmd(["try-submit-jobs", sim.out] if cmd == "try" else ["show-status", "-o", sim.out, "-n"])
+
+                sim.w.user_events.append((u["cmd"], pred, fire, True))
             sim.submit()
             outcome = sim.drive()
+            sim.w.user_events.clear()
             res["counters"]["variant_runs"] += 1
             res["classes"].append("variant:" + var["mode"])
             if var.get("file_yields"):
